@@ -9,8 +9,10 @@ Local Open Scope Z_scope.
 (* the generated functions:
      Loop e : def f(n): s = 0 / for i in range(n): / s += i / (e times) s += k / return s
      Wrap   : def w(n): r = g(n) / return r
-     Raiser : def x(): raise ...                                              *)
-Inductive shape := Loop (extra : Z) | Wrap | Raiser.
+     Raiser : def x(): raise ...
+     OneLine: def q(n): return n * n   /   q = lambda n: n + 1   (body on the header line:
+              the only line with data is co_firstlineno itself)               *)
+Inductive shape := Loop (extra : Z) | Wrap | Raiser | OneLine.
 
 Definition zsum (l : list Z) : Z := fold_right Z.add 0 l.
 Definition zlen {A} (l : list A) : Z := Z.of_nat (length l).
@@ -22,6 +24,7 @@ Definition expected_hits (sh : shape) (ns : list Z) : list Z :=
   | Loop e => [c; zsum (map (fun n => n + 1) ns); zsum ns] ++ repeat c (Z.to_nat e) ++ [c]
   | Wrap => [c; c]
   | Raiser => [c]
+  | OneLine => [c]
   end.
 
 Record lobs := LObs {
